@@ -477,6 +477,77 @@ func ruleTabKU(c *Ctx, r *Rep) {
 			}
 		}
 	}
+	// or as a helper from the name to the flag in whatever way (an ordered list of names and a shift, a search loop):
+	// the helper is folded for every name of the schema and of the reference table
+	if kuT := c.NamedType("generator/cert", "KeyUsage"); kuT != nil && len(byFn) == 0 {
+		names := map[string]bool{}
+		for _, e := range refList("keyusage") {
+			names[rs(e, "name")] = true
+		}
+		if enum, why := schemaEnum(c, "extension.json", "properties", "keyUsage", "properties", "content", "items", "enum"); why == "" {
+			for _, e := range enum {
+				names[e] = true
+			}
+		}
+		for _, fn := range c.Funcs {
+			res := fn.Signature.Results()
+			if fn.Blocks == nil || len(fn.Params) != 1 || !isString(fn.Params[0].Type()) || res.Len() == 0 || res.Len() > 2 || !types.Identical(res.At(0).Type(), kuT) {
+				continue
+			}
+			// its answer is ORed into the flags somewhere
+			used := false
+			for _, caller := range c.Funcs {
+				for _, ci := range callsIn(caller) {
+					if ci.Common().StaticCallee() != fn || ci.Value() == nil {
+						continue
+					}
+					for _, ref := range *ci.Value().Referrers() {
+						v := ssa.Value(nil)
+						if ex, ok := ref.(*ssa.Extract); ok && ex.Index == 0 {
+							v = ex
+						} else if bo, ok := ref.(*ssa.BinOp); ok {
+							v = bo
+						}
+						if v == nil {
+							continue
+						}
+						if bo, ok := v.(*ssa.BinOp); ok && bo.Op == token.OR {
+							used = true
+						}
+						if v.Referrers() != nil {
+							for _, r2 := range *v.Referrers() {
+								if bo, ok := r2.(*ssa.BinOp); ok && bo.Op == token.OR {
+									used = true
+								}
+							}
+						}
+					}
+				}
+			}
+			if !used {
+				continue
+			}
+			var rows []row
+			for name := range names {
+				fo := c.newFolder()
+				out, ok := fo.Fold(fn, []*fval{fconst(constant.MakeString(name))}, 0)
+				if !ok {
+					r.Undecided("shape:key-usage-helper|"+c.FuncKey(fn), c.FnPos(fn), "the helper from a name to a flag cannot be folded for "+name+": "+fo.why)
+					return
+				}
+				if len(out) == 2 && out[1].k != nil && out[1].k.Kind() == constant.Bool && !constant.BoolVal(out[1].k) {
+					continue // not a name the helper knows
+				}
+				if out[0].k == nil {
+					continue
+				}
+				m, _ := constant.Int64Val(out[0].k)
+				rows = append(rows, row{name, m, fn.Pos()})
+			}
+			sort.Slice(rows, func(i, j int) bool { return rows[i].label < rows[j].label })
+			byFn[fn] = rows
+		}
+	}
 	var fn *ssa.Function
 	for f, rows := range byFn {
 		if len(rows) >= 5 {
